@@ -46,6 +46,8 @@ type Violation struct {
 	Solver     string `json:"solver_output"`
 	Replay     string `json:"replay"`
 	Reproduced bool   `json:"reproduced"`
+	ReplayInfo *ReplayOutcome `json:"replay_outcome,omitempty"`
+	obl        *Obligation
 }
 
 func cmdCheck(args []string) {
@@ -167,7 +169,11 @@ func cmdCheck(args []string) {
 					samples = append(samples, map[string]interface{}{"obligation": o.Name, "path": o.Path, "kind": o.Kind, "clause": o.Desc, "backend": o.Solver, "seconds": o.Seconds})
 				}
 			default:
-				viols = append(viols, Violation{Property: *prop, Obligation: o.Name, Function: r.Name, SrcHash: r.SrcHash, Kind: o.Kind, Desc: o.Desc, Where: o.Where, Status: o.Status, Solver: o.Detail})
+				var ob *Obligation
+				if i < len(r.obls) {
+					ob = r.obls[i]
+				}
+				viols = append(viols, Violation{Property: *prop, Obligation: o.Name, Function: r.Name, SrcHash: r.SrcHash, Kind: o.Kind, Desc: o.Desc, Where: o.Where, Status: o.Status, Solver: o.Detail, obl: ob})
 			}
 		}
 	}
@@ -184,6 +190,8 @@ func cmdCheck(args []string) {
 	// ---- known findings, replay files, output
 	repDir := filepath.Join(*vdir, "replays", *prop)
 	os.MkdirAll(repDir, 0o755)
+	nReplays := 0
+	const maxReplays = 6
 	seenKnown := map[string]bool{}
 	reported := map[string]bool{}
 	nViol := 0
@@ -206,9 +214,19 @@ func cmdCheck(args []string) {
 		nViol++
 		path := filepath.Join(repDir, sanitize(vi.Obligation)+".json")
 		vi.Replay = path
+		tail := " no-failing-input-found"
+		if vi.obl != nil && vi.obl.replay != nil && nReplays < maxReplays {
+			nReplays++
+			ro := vi.obl.replay.replay(vi.obl, vi.obl.Clause, filepath.Join(repDir, "tests"), *root)
+			vi.ReplayInfo = &ro
+			if ro.Reproduced {
+				vi.Reproduced = true
+				tail = " failing-input-replayed-on-real-code test=" + ro.TestFile
+			}
+		}
 		rb, _ := json.MarshalIndent(vi, "", " ")
 		os.WriteFile(path, rb, 0o644)
-		fmt.Printf("VIOLATION property=%s replay=%s obligation=%s (%s) no-failing-input-found\n", *prop, path, vi.Obligation, vi.Desc)
+		fmt.Printf("VIOLATION property=%s replay=%s obligation=%s (%s)%s\n", *prop, path, vi.Obligation, truncate(vi.Desc, 160), tail)
 	}
 	// known findings that did not show: mention (not an alarm)
 	for _, kf := range known {
